@@ -128,13 +128,13 @@ class C06(Prop):
     pid = "C06"
     prop_file = "Props/C06.v"
     module = "Props.C06"
-    gen_deps = ["Table", "StripFn", "StreamFn", "FmtFn"]
+    gen_deps = ["Table", "StripFn", "StreamFn", "FmtFn", "Utf8parseFn"]
     harness = ("h-core", "hcore")
     nontrivial_rule = ("cases: the standard caller protocol over StripStream::write for EVERY script over {accept 0,1,2,3,all} u {Interrupted, WouldBlock, Other} up to depth 4 "
                        "(quick) / 5 (thorough) against six short escape-rich inputs, and seeded random scripts against long grammar inputs; sequences of write / write_all / "
                        "write_vectored / write_fmt / flush over scripted boxed writers. For each protocol run the bytes the inner writer received must be a prefix of "
                        "Spec/Strip of the input, and equal to it when the protocol ends with success. non-trivial = distinct case whose script holds a short accept or an error")
-    trusted = ["std::io::Write::{write_all, write_fmt} default loops as transcribed in Spec/Io.v", "third-party utf8parse automaton (transcribed, tied)"]
+    trusted = ["std::io::Write::{write_all, write_fmt} default loops as transcribed in Spec/Io.v", "third-party utf8parse automaton: translated from the registry source of the version Cargo.lock pins and proved equal to Model/Utf8parse.v (Generated/Utf8parseFn.v, Proofs/Utf8parseGen.v; theorems under C01-C04, C20); also tied by the correspondence runs"]
     assumptions = ["inner writers follow the Write contract (accept count <= buffer length)", "input bytes are < 256"]
 
     def streams(self, tier, rng):
